@@ -73,6 +73,25 @@ fn observe<T: Queryable + JsonPath>(doc: &T, am: &AddrMap<T>, q: &str) -> Outcom
     }
 }
 
+/// (in a but not b, in b but not a) for sorted multisets
+fn multiset_diff(a: &[Loc], b: &[Loc]) -> (Vec<Loc>, Vec<Loc>) {
+    let (mut i, mut j) = (0, 0);
+    let (mut only_a, mut only_b) = (vec![], vec![]);
+    while i < a.len() || j < b.len() {
+        if j >= b.len() || (i < a.len() && a[i] < b[j]) {
+            only_a.push(a[i].clone());
+            i += 1;
+        } else if i >= a.len() || b[j] < a[i] {
+            only_b.push(b[j].clone());
+            j += 1;
+        } else {
+            i += 1;
+            j += 1;
+        }
+    }
+    (only_a, only_b)
+}
+
 fn locs_disp(ls: &[Loc]) -> Vec<String> {
     ls.iter().map(loc_display).collect()
 }
@@ -128,6 +147,11 @@ fn check_eval<T: Queryable + JsonPath>(
             let mut m = base(case, &q, docj, "nodes", repr);
             m["actual"] = json!(obs_disp(&obs));
             m["what"] = json!(if !all_inside { "result is not a node of the caller's document" } else { "selected nodes differ (as multisets)" });
+            let (missing, extra) = multiset_diff(&se, &sa);
+            m["missing"] = json!(locs_disp(&missing));
+            m["extra"] = json!(locs_disp(&extra));
+            m["missing_values"] = json!(missing.iter().map(|l| verif_harness::addr::lookup(doc, l).map(|v| format!("{:?}", v))).collect::<Vec<_>>());
+            m["extra_values"] = json!(extra.iter().map(|l| verif_harness::addr::lookup(doc, l).map(|v| format!("{:?}", v))).collect::<Vec<_>>());
             out.mismatch(m);
         }
     }
@@ -153,6 +177,7 @@ fn check_eval<T: Queryable + JsonPath>(
                 let mut m = base(case, &q, docj, "paths", repr);
                 m["what"] = json!("reported path is not the Normalized Path of the reported node");
                 m["node"] = json!(loc_display(loc));
+                m["node_loc"] = json!(loc);
                 m["expected_path"] = json!(np);
                 m["actual_path"] = json!(o.path);
                 m["pos"] = json!(i);
@@ -166,6 +191,7 @@ fn check_eval<T: Queryable + JsonPath>(
                     let mut m = base(case, &q, docj, "paths", repr);
                     m["what"] = json!("re-running the reported path does not return exactly that node");
                     m["node"] = json!(loc_display(loc));
+                    m["node_loc"] = json!(loc);
                     m["actual_path"] = json!(o.path);
                     m["requery"] = match other {
                         Outcome::Ok(r) => json!({"nodes": obs_disp(&r), "paths": r.iter().map(|x| x.path.clone()).collect::<Vec<_>>()}),
